@@ -220,6 +220,26 @@ Definition slave_load (data : record) : option slave :=
   | _ => None
   end.
 
+(* what GET /devices (Slave.to_json) and the intercepted GET /devices/x/forward/device show of the cached attributes: every
+   attribute whose name ends in "_password" (a password pending provisioning, kept in clear text in memory and in the record) is
+   shown as "set" / "" *)
+Fixpoint ends_with (suffix s : string) : bool :=
+  (s =? suffix) || match s with String _ s' => ends_with suffix s' | EmptyString => false end.
+Definition truthy (v : jv) : bool :=
+  match v with
+  | JNull | JBool false | JStr "" | JList [] | JObj [] => false
+  | JInt z | JQ z => negb (z =? 0)%Z
+  | _ => true
+  end.
+Definition expose (kv : string * jv) : string * jv :=
+  if ends_with "_password" (fst kv) then (fst kv, JStr (if truthy (snd kv) then "set" else "")) else kv.
+Definition exposed_attrs (v : jv) : jv := match v with JObj l => JObj (map expose l) | x => x end.
+Definition slave_doc (s : slave) : record :=
+  [("name", JStr (s_name s)); ("enabled", JBool (s_enabled s))] ++ s_conn s
+  ++ [("provisioning", JList (map JStr (s_prov_attrs s ++ (if s_prov_webhooks s then ["webhooks"] else [])
+                                        ++ (if s_prov_reverse s then ["reverse"] else []))));
+      ("attrs", exposed_attrs (s_attrs s))].
+
 Definition wf_slave (s : slave) : Prop :=
   map fst (s_conn s) = conn_fields /\ NoDup (s_prov_attrs s)
   /\ s_attrs s <> JNull /\ s_webhooks s <> JNull /\ s_reverse s <> JNull.
